@@ -194,11 +194,29 @@ class C02(Check):
             "(c) return-path analysis: every function-body skeleton of depth <= 2 over {if, if/else, else-if, while, from} with return / "
             "no-return leaves; every accepted skeleton is called with all condition vectors and its result stored and printed; (d) a catalogue "
             "of boundary cases (values reaching a typed position through an element / field pointer, a boxed optional, a fixed-shape list, "
-            "unpacking, an alias, Self).  The "
+            "unpacking, an alias, Self); (e) depth-2 operator trees (x op1 y) op2 z and z op2 (x op1 y) over 6 typed variables of the four numeric kinds "
+            "and 13 operators (every 11th in the quick tier): the static type of the tree must fit the kind of its value.  The "
             "compiler's own verdict partitions the space; only accepted programs are judged.  Non-trivial = accepted by the compiler.")
     assumptions = ["failure classes of DESIGN Appendix A: assert, nil, range, zero divisor, overflow, conversion, stack are the defined "
                    "dynamic failures; anything else is a dynamic type error", "run-time kinds observed through hook H2"]
     chunksize = 32
+
+    TREE_LEAVES = [("int", 1), ("bigint", 2 ** 63), ("byte", 255), ("float", 1.5), ("int", 2147483647), ("byte", 2)]
+    TREE_OPS = ["+", "-", "*", "/", "%", "<<", ">>", "&", "|", "xor", "<", "==", "!="]
+
+    def tree_cases(self):
+        """depth-2 operator trees over typed variables: (x op1 y) op2 z and z op2 (x op1 y); the static type of the whole tree
+        must fit the kind of the value it yields"""
+        out = []
+        L = range(len(self.TREE_LEAVES))
+        for o1 in self.TREE_OPS[:10]:
+            for o2 in self.TREE_OPS:
+                for a in L:
+                    for b in L:
+                        for c in L:
+                            out.append(("tree", o1, o2, a, b, c, 0))
+                            out.append(("tree", o1, o2, a, b, c, 1))
+        return out
 
     def layers(self, tier):
         ts = list(TYPES)
@@ -208,7 +226,9 @@ class C02(Check):
              for t1 in ts for t2 in ts]
         c1 = [("ret", i) for i in range(len(skeletons(1)))]
         d = [("cat", name) for name in CATALOGUE]
-        ls = [("Ld-catalogue", d), ("La-unary", u), ("La-operator-table", a), ("Lb-compatibility", b), ("Lc-return-paths-depth1", c1)]
+        tr = self.tree_cases()
+        ls = [("Ld-catalogue", d), ("La-unary", u), ("La-operator-table", a), ("Lb-compatibility", b), ("Lc-return-paths-depth1", c1),
+              ("Le-depth2-operator-trees-typeof-vs-kind" + ("-every-11th" if tier == "quick" else ""), tr[::11] if tier == "quick" else tr)]
         c2 = [("ret2", i) for i, s in enumerate(skeletons(2)) if count_conds(s) <= 4]
         if tier == "quick":
             c2 = c2[::9]
@@ -260,6 +280,13 @@ class C02(Check):
                             decl("init", t1).replace("const ", "") + "h = H(init)\nh.f = src\nprint typeof h.f\nprint h.f\n"), 1
             if pos == "or":
                 return s + decl("x", t1) + "r = (x) or src\nprint typeof r\nprint r\n", 1
+        if k == "tree":
+            from ..lang import numeric as N_
+            _, o1, o2, a, b, c, right = case
+            (ka, va), (kb, vb), (kc, vc) = self.TREE_LEAVES[a], self.TREE_LEAVES[b], self.TREE_LEAVES[c]
+            lines = N_.construct(ka, va, "x", "zx") + N_.construct(kb, vb, "y", "zy") + N_.construct(kc, vc, "z", "zz")
+            e = f"z {o2} (x {o1} y)" if right else f"(x {o1} y) {o2} z"
+            return "\n".join(lines) + f"\nprint typeof ({e})\nprint {e}\n", 1
         if k == "cat":
             return PRELUDE + "\n".join(CATALOGUE[case[1]]) + "\n", 9
         if k in ("ret", "ret2"):
@@ -310,7 +337,7 @@ class C02(Check):
             for tline, vline in zip(lines[0::2], lines[1::2]):
                 if tline.startswith("Str:") and ":" in vline and kind_ok(tline[4:], vline.split(":", 1)[0]) is False:
                     bad("kind-mismatch", f"typeof says `{tline[4:]}` but the value observed at run time is {vline[:60]}")
-        if kind0 in ("op", "un", "compat") and len(lines) >= 2:
+        if kind0 in ("op", "un", "compat", "tree") and len(lines) >= 2:
             pairs = []
             if kind0 == "op" and case[1] == "?=":
                 if len(lines) >= 4:
@@ -329,7 +356,7 @@ class C02(Check):
 
     def finish(self, stats, tier):
         errs = []
-        for g in ("op", "un", "compat", "ret", "cat"):
+        for g in ("op", "un", "compat", "ret", "cat", "tree"):
             if not stats["tags"].get(f"acc-{g}"):
                 errs.append(f"vacuity: no accepted program in group {g}")
         stats["extra_coverage"] = {"accepted": sum(v for k, v in stats["tags"].items() if k.startswith("acc-")),
